@@ -523,6 +523,8 @@ pub fn zoo() -> Vec<Entry> {
 		(BTreeMap<u8, u8>, u32), (VecDeque<u8>, String), (LinkedList<u8>,), (BinaryHeap<u8>, bool, u8), (BTreeSet<u8>, u8));
 
 	// strings and holders
+	add!(v; full: (Box<()>, Box<u8>), Vec<Box<()>>, (Rc<PhantomData<u32>>, Arc<[u16; 0]>, Vec<Vec<u8>>), [Box<()>; 4], (Box<()>, Box<()>, Box<Box<u8>>),
+		BTreeMap<u8, Box<()>>, (Arc<()>, Vec<Option<Box<u16>>>));
 	add!(v; full: String, Box<u32>, Box<String>, Box<[u8; 100]>, Box<Vec<u16>>, Box<()>, Rc<u64>, Rc<Vec<u8>>, Rc<[u32; 4]>,
 		Arc<u16>, Arc<String>, Arc<(u8, Vec<u8>)>, Box<Box<u8>>, Box<Option<Box<u16>>>, Rc<Arc<Box<u32>>>,
 		Box<[Box<u16>; 5]>, Vec<Box<u8>>, Option<Box<[u64; 3]>>);
@@ -565,7 +567,10 @@ pub fn zoo() -> Vec<Entry> {
 			Vec<Named>, Vec<Data>, Option<Simple>, Vec<AllSkip>, Box<TransparentArr>, [TransparentZst; 2], Vec<Tree>,
 			BTreeMap<Simple, Indexed>, (Simple, WithCompact, Discr), Box<TransparentBox>, Vec<UnitS>,
 			TransparentCompact, Box<TransparentCompact>, [TransparentCompact; 3], Rc<TransparentEncodedAs>, [TransparentEncodedAs; 2],
-			Box<SingleCompact>, [WithCompact; 2], Arc<Arc<Arc<u32>>>, Rc<Rc<u8>>, Vec<Arc<Vec<Arc<u16>>>>, Option<Arc<ArcChain>>, Box<DataFixed>, [Data; 2], Arc<Nested>, Box<TupEnum>);
+			Box<SingleCompact>, [WithCompact; 2], Arc<Arc<Arc<u32>>>, Rc<Rc<u8>>, Vec<Arc<Vec<Arc<u16>>>>, Option<Arc<ArcChain>>, Box<DataFixed>, [Data; 2], Arc<Nested>, Box<TupEnum>,
+			Marker, MarkerPair, [Marker; 4], Box<[Marker; 4]>, ([Marker; 2], u16), Vec<Marker>, [[Marker; 2]; 2], [MarkerPair; 3],
+			Rc<[Marker; 3]>, Option<[Marker; 1]>, (Arc<[MarkerPair; 2]>, Vec<u8>), Vec<[Marker; 2]>,
+			(Box<UnitS>, Vec<Vec<u8>>), [Box<AllSkip>; 3]);
 	}
 
 	#[cfg(feature = "max-encoded-len")]
@@ -589,6 +594,7 @@ pub fn zoo() -> Vec<Entry> {
 			mark!(v; mel: UnitS, WithSkip, WithCompact, WithEncodedAs, SingleCompact, SingleCompact16, AllSkip, Simple, Indexed,
 				Discr, DataFixed, TransparentArr, TransparentZst, CWrap, Option<Simple>, Box<TransparentArr>, [TransparentZst; 2],
 				TransparentCompact, Box<TransparentCompact>, [TransparentCompact; 3], [TransparentEncodedAs; 2], Compact<CWrap>,
+				Marker, MarkerPair, [Marker; 4], Box<[Marker; 4]>, ([Marker; 2], u16), [[Marker; 2]; 2], [MarkerPair; 3], Option<[Marker; 1]>,
 				(Simple, WithCompact, Discr));
 		}
 	}
